@@ -28,7 +28,84 @@ fn kind_name(k: AddressKind) -> &'static str {
     }
 }
 
+/// Cross-checks of the OTHER constructors of a typed address (added after tools/coverage.sh showed that
+/// `TryFrom<&[u8]>`, `TryFrom<Vec<u8>>` and the serde path `TryFrom<Raw>` / `From<_> for Raw` were never run):
+/// every way of building the address of `id` must give the value `new(Id)` gives, the byte constructors
+/// must reject every length but 20 with `InvalidAddressSize(len)`, and the JSON form must be the quoted
+/// bech32 string and parse back.  A violation is made visible in the result line (which the model then
+/// contradicts); it never panics.
+macro_rules! ctor_check {
+    ($t:ty, $id:expr) => {{
+        let id: [u8; 20] = $id;
+        let want = <$t>::new(Id::new(id));
+        let mut bad: Vec<String> = vec![];
+        if <$t>::try_from(&id[..]).ok() != Some(want.clone()) {
+            bad.push("slice20".into());
+        }
+        if <$t>::try_from(id.to_vec()).ok() != Some(want.clone()) {
+            bad.push("vec20".into());
+        }
+        if <$t>::from(id) != want {
+            bad.push("array".into());
+        }
+        let mut long = id.to_vec();
+        long.push(id[0]);
+        for wrong in [&id[..0], &id[..1], &id[..19], &long[..]] {
+            let n = wrong.len();
+            match <$t>::try_from(wrong) {
+                Err(celestia_types::Error::InvalidAddressSize(m)) if m == n => {}
+                _ => bad.push(format!("slice{n}")),
+            }
+            match <$t>::try_from(wrong.to_vec()) {
+                Err(celestia_types::Error::InvalidAddressSize(m)) if m == n => {}
+                _ => bad.push(format!("vec{n}")),
+            }
+        }
+        let shown = want.to_string();
+        match serde_json::to_string(&want) {
+            Ok(j) if j == format!("\"{shown}\"") => match serde_json::from_str::<$t>(&j) {
+                Ok(back) if back == want => {}
+                _ => bad.push("json-back".into()),
+            },
+            _ => bad.push("json".into()),
+        }
+        match (serde_json::to_string(&Address::from(want.clone())), serde_json::from_str::<Address>(&format!("\"{shown}\""))) {
+            (Ok(j), Ok(back)) if j == format!("\"{shown}\"") && back == Address::from(want.clone()) => {}
+            _ => bad.push("json-any".into()),
+        }
+        bad
+    }};
+}
+
+/// the serde path (`TryFrom<Raw>`) must agree with `FromStr` on every string
+fn json_agrees(as_: &str, s: &str, from_str: &str) -> bool {
+    let Ok(j) = serde_json::to_string(s) else { return true };
+    fn ok(k: AddressKind, id: &[u8]) -> String {
+        format!("ok kind={} id={}", kind_name(k), hx(id))
+    }
+    let via = match as_ {
+        "any" => serde_json::from_str::<Address>(&j).map(|a| ok(a.kind(), a.as_bytes())).ok(),
+        "acc" => serde_json::from_str::<AccAddress>(&j).map(|a| ok(a.kind(), a.as_bytes())).ok(),
+        "val" => serde_json::from_str::<ValAddress>(&j).map(|a| ok(a.kind(), a.as_bytes())).ok(),
+        "cons" => serde_json::from_str::<ConsAddress>(&j).map(|a| ok(a.kind(), a.as_bytes())).ok(),
+        _ => return true,
+    };
+    match via {
+        Some(v) => v == from_str,
+        None => from_str.starts_with("err"),
+    }
+}
+
 fn display(kind: &str, id: [u8; 20]) -> Option<String> {
+    let bad = match kind {
+        "acc" => ctor_check!(AccAddress, id),
+        "val" => ctor_check!(ValAddress, id),
+        "cons" => ctor_check!(ConsAddress, id),
+        _ => return None,
+    };
+    if !bad.is_empty() {
+        return Some(format!("constructor-mismatch:{}", bad.join("+")));
+    }
     let id = Id::new(id);
     let (typed, any): (String, Address) = match kind {
         "acc" => (AccAddress::new(id).to_string(), AccAddress::new(id).into()),
@@ -52,6 +129,11 @@ fn show_err(e: celestia_types::Error) -> String {
 }
 
 fn parse(as_: &str, s: &str) -> String {
+    let r = parse_from_str(as_, s);
+    if json_agrees(as_, s, &r) { r } else { format!("{r} serde-path-differs") }
+}
+
+fn parse_from_str(as_: &str, s: &str) -> String {
     fn ok(k: AddressKind, id: &[u8]) -> String {
         format!("ok kind={} id={}", kind_name(k), hx(id))
     }
